@@ -24,8 +24,8 @@ func init() {
 	}{{"C02", 291}, {"C16", 1691}} {
 		base, id := generators[p.prop], p.id
 		generators[p.prop] = func(r *rng, n int) {
+			genToFlags(g2cRng(r), id) // own stream (the base generator's stream is unchanged), first: emitted even if the base generator stops
 			base(r, n)
-			genToFlags(r, id)
 		}
 	}
 }
@@ -80,3 +80,6 @@ func genToFlags(r *rng, id int) {
 		}
 	}
 }
+
+// g2cRng: a generator of its own for the generated-definition checks, derived from (not advancing) the property's generator state
+func g2cRng(r *rng) *rng { return &rng{s: r.s ^ 0x67326371} }
